@@ -32,7 +32,10 @@ Record seg_data := mkSD { sd_start : N; sd_pt : N; sd_base : N; sd_dur : N; sd_s
 (* state of the loops of findSegmentData over one segment: baseTime, firstCompositionTimeOffset, dur *)
 Record sd_acc := mkAcc { a_base : N; a_cto : Z; a_dur : N }.
 
-Definition traf_step (ref_id : N) (first_frag : bool) (a : sd_acc) (t : traf) : sd_acc :=
+(* `wrap`: the accumulator width.  The pinned text (before repo commit 85561e1) accumulated the
+   duration in a uint32 (wrap = u32) and cast Size() to uint32; the repaired text accumulates in a
+   uint64 and returns an error when the size needs more than 31 bits or the duration more than 32. *)
+Definition traf_step_w (wrap : N -> N) (ref_id : N) (first_frag : bool) (a : sd_acc) (t : traf) : sd_acc :=
   if t_track t =? ref_id then
     let base := if first_frag then t_base t else a_base a in
     let cto := if first_frag then
@@ -41,33 +44,59 @@ Definition traf_step (ref_id : N) (first_frag : bool) (a : sd_acc) (t : traf) : 
                  | _ => a_cto a
                  end
                else a_cto a in
-    let dur := fold_left (fun d x => u32 (d + x)) (concat (t_truns t)) (a_dur a) in
+    let dur := fold_left (fun d x => wrap (d + x)) (concat (t_truns t)) (a_dur a) in
     mkAcc base cto dur
   else a.
 
-Fixpoint frags_step (ref_id : N) (first_frag : bool) (a : sd_acc) (frs : list fragment) : res sd_acc :=
+Fixpoint frags_step_w (wrap : N -> N) (ref_id : N) (first_frag : bool) (a : sd_acc) (frs : list fragment) : res sd_acc :=
   match frs with
   | [] => Ok a
   | fr :: t =>
       match fr_moof fr with
       | None => Err                                     (* "fragment without moof box" *)
-      | Some m => frags_step ref_id false (fold_left (traf_step ref_id first_frag) (b_trafs m) a) t
+      | Some m => frags_step_w wrap ref_id false (fold_left (traf_step_w wrap ref_id first_frag) (b_trafs m) a) t
       end
   end.
 
+Definition traf_step := traf_step_w u64.
+Definition frags_step := frags_step_w u64.
+
 Definition two64 : Z := 18446744073709551616%Z.
 
+Definition MAX_REF_SIZE : N := 2147483647.      (* 0x7fffffff *)
+Definition MAX_REF_DUR : N := 4294967295.       (* 0xffffffff *)
+
+(* one iteration of findSegmentData's outer loop (repaired text) *)
 Definition seg_data_of (ref_id : N) (s : segment) : res seg_data :=
   do a <- frags_step ref_id true (mkAcc 0 0%Z 0) (sg_frags s);
+  let seg_sz := u64 (seg_size s) in                     (* seg.Size(): uint64 *)
+  if MAX_REF_SIZE <? seg_sz then Err                    (* "segment size ... does not fit the 31-bit referenced_size" *)
+  else if MAX_REF_DUR <? a_dur a then Err               (* "segment duration ... does not fit the 32-bit subsegment_duration" *)
+  else
   Ok (mkSD (sg_start s)
            (Z.to_N ((Z.of_N (a_base a) + a_cto a) mod two64))   (* uint64(int64(baseTime) + cto) *)
+           (a_base a) (u32 (a_dur a)) (u32 seg_sz)).
+
+(* the pinned text: dur uint32, size: uint32(seg.Size()), no error *)
+Definition seg_data_of_pinned (ref_id : N) (s : segment) : res seg_data :=
+  do a <- frags_step_w u32 ref_id true (mkAcc 0 0%Z 0) (sg_frags s);
+  Ok (mkSD (sg_start s)
+           (Z.to_N ((Z.of_N (a_base a) + a_cto a) mod two64))
            (a_base a) (a_dur a) (u32 (seg_size s))).
 
-Fixpoint find_segment_data (ref_id : N) (segs : list segment) : res (list seg_data) :=
+Fixpoint find_segment_data_g (one : N -> segment -> res seg_data) (ref_id : N) (segs : list segment) : res (list seg_data) :=
   match segs with
   | [] => Ok []
-  | s :: t => do d <- seg_data_of ref_id s; do r <- find_segment_data ref_id t; Ok (d :: r)
+  | s :: t => do d <- one ref_id s; do r <- find_segment_data_g one ref_id t; Ok (d :: r)
   end.
+
+Definition find_segment_data := find_segment_data_g seg_data_of.
+Definition find_segment_data_pinned := find_segment_data_g seg_data_of_pinned.
+
+(* SidxBox.EncodeSW / DecodeSidxSR on the first word of a reference:
+   sw.WriteUint32(uint32(ref.ReferenceType)<<31 | ref.ReferencedSize);  type = work >> 31, size = work & 0x7fffffff *)
+Definition enc_ref_word (r : sref) : N := N.lor (u32 (r_type r * 2147483648)) (r_size r).
+Definition dec_ref_word (w : N) : N * N := (w / 2147483648, w mod 2147483648).
 
 (* fillSidx: the fields of the refilled box (old: the box being refilled) *)
 Definition fill_sidx (old : topbox) (rt : trak) (sds : list seg_data) (nz : bool) (first_offset : N) : topbox :=
@@ -112,7 +141,7 @@ Definition blank_sidx (tag : N) : topbox :=
   mkBox KSidx tag 0 8 0 [] false [] false [] [] 0 0 0 0.
 
 (* File.UpdateSidx(addIfNotExists, nonZeroEPT); newtag: identity of the SidxBox created when none exists *)
-Definition update_sidx (f : file) (add nz : bool) (newtag : N) : res file :=
+Definition update_sidx_g (fsd : N -> list segment -> res (list seg_data)) (f : file) (add nz : bool) (newtag : N) : res file :=
   if negb (f_fragmented f) then Err
   else match f_init f, f_moov f with
   | None, _ => Err
@@ -126,7 +155,7 @@ Definition update_sidx (f : file) (add nz : bool) (newtag : N) : res file :=
           do rt <- find_reference_trak (b_traks moov);
           if negb (k_trex rt) then Err
           else
-            do sds <- find_segment_data (k_id rt) (f_segs f);
+            do sds <- fsd (k_id rt) (f_segs f);
             match f_sidxs f with
             | sx :: rest =>
                 (* first_offset 0 from fillSidx, then the sizes of the further top-level sidx boxes *)
@@ -151,3 +180,6 @@ Definition update_sidx (f : file) (add nz : bool) (newtag : N) : res file :=
                 end
             end
   end.
+
+Definition update_sidx := update_sidx_g find_segment_data.
+Definition update_sidx_pinned := update_sidx_g find_segment_data_pinned.
